@@ -270,9 +270,15 @@ def coq_eval(name, header, body_chunks, timeout=600, jobs=8):
     logs = []
 
     def launch(fn):
-        return subprocess.Popen(['coqc', '-Q', '.', 'BV', '-w', '-notation-overridden',
-                                 os.path.relpath(fn, COQ)], cwd=COQ,
-                                stdout=subprocess.PIPE, stderr=subprocess.STDOUT, text=True)
+        # output goes to a file: a failing case file makes coqc print the whole term,
+        # which would fill a pipe nobody drains
+        out = open(fn[:-2] + '.out', 'w')
+        p = subprocess.Popen(['coqc', '-Q', '.', 'BV', '-w', '-notation-overridden',
+                              os.path.relpath(fn, COQ)], cwd=COQ,
+                             stdout=out, stderr=subprocess.STDOUT, text=True)
+        p.outpath = fn[:-2] + '.out'
+        out.close()
+        return p
     pending = list(files)
     running = []
     t0 = time.time()
@@ -285,8 +291,8 @@ def coq_eval(name, header, body_chunks, timeout=600, jobs=8):
             if p.poll() is None:
                 still.append((f, p))
                 continue
-            out = p.stdout.read()
-            logs.append(out)
+            out = open(p.outpath).read()
+            logs.append(out[-20000:])
             if p.returncode != 0:
                 raise RuntimeError('case evaluation failed for %s:\n%s' % (f[0], out[-3000:]))
             results.extend(parse_codes(out, f[1]))
@@ -298,7 +304,7 @@ def coq_eval(name, header, body_chunks, timeout=600, jobs=8):
         if running:
             time.sleep(0.05)
     for fn, _, _ in files:
-        for ext in ('.v', '.vo', '.vok', '.vos', '.glob'):
+        for ext in ('.v', '.vo', '.vok', '.vos', '.glob', '.out'):
             try:
                 os.remove(fn[:-2] + ext)
             except OSError:
